@@ -98,8 +98,17 @@ def one_case(sh, fa, SRE, rng, case, drop_bytes_default_fields=False):
     for s in set(steps):
         sh.count("step_" + s)
 
+    form = rng.choice(["raw", "raw", "parsed_reader", "parsed_both", "parsed_writer"])
+    sh.count("schema_form_" + form)
+
     def read_sl():
-        return fa.schemaless_reader(io.BytesIO(data), copy.deepcopy(wjs), copy.deepcopy(rjs))
+        w = copy.deepcopy(wjs)
+        r = copy.deepcopy(rjs)
+        if form in ("parsed_writer", "parsed_both"):
+            w = fa.parse_schema(w)
+        if form in ("parsed_reader", "parsed_both"):
+            r = fa.parse_schema(r)
+        return fa.schemaless_reader(io.BytesIO(data), w, r)
 
     st, got = guard(read_sl)
     if not judge(sh, SRE, st, got, verdict, want, info, "schemaless_reader"):
